@@ -427,7 +427,18 @@ def native_names(rep):
             ty = "&'static " + ty[1:]
         if ty == 'std::borrow::Cow<i32>':
             ty = "std::borrow::Cow<'static, i32>"
-        rows.append((self_ty, ty))
+        # the same instantiation at a derived struct (its inline form differs from its name): confirms findings about inline()
+        typ = self_ty
+        for g in gens:
+            if g in ('H',):
+                typ = re.sub(r',\s*' + g + r'\b', '', typ)
+            elif g != 'N':
+                typ = re.sub(r'\b' + g + r'\b', 'Probe', typ)
+        typ = typ.replace("'a, ", '')
+        if typ.startswith('&'):
+            typ = "&'static " + typ[1:]
+        typ = typ.replace('std::borrow::Cow<Probe>', "std::borrow::Cow<'static, Probe>")
+        rows.append((self_ty, ty, typ if (set(gens) - {'H', 'N'}) and 'N' not in gens else None))
     scratch = tempfile.mkdtemp(prefix='tsrs-verif-c12-')
     try:
         os.makedirs(os.path.join(scratch, 'src'))
@@ -436,8 +447,15 @@ def native_names(rep):
             fh.write(f'[package]\nname = "c12probe"\nversion = "0.0.0"\nedition = "2021"\n[workspace]\n[dependencies]\n'
                      f'ts-rs = {{ path = "{os.path.join(REPO, "ts-rs")}" }}\nserde = {{ version = "1", features = ["derive", "rc"] }}\nserde_json = "1"\n')
         body = ['#![allow(unused_imports)]', 'use ts_rs::TS; use std::collections::*; use std::ops::*; use std::path::*; use std::net::*; use std::num::*;',
-                'fn main() {']
-        for self_ty, ty in rows:
+                '#[derive(TS, Clone, serde::Serialize)] struct Probe { q: i32 }',
+                'fn inl<T: TS + ?Sized>() -> String { std::panic::catch_unwind(|| T::inline()).unwrap_or_else(|_| "<panic>".into()) }',
+                'fn main() {', '    std::panic::set_hook(Box::new(|_| {}));']
+        for self_ty, ty, typ in rows:
+            if typ:
+                body.append(f'    println!("I\\t{{}}\\t{{}}", r#"{self_ty}"#, inl::<{typ}>());')
+        for k in range(0, G['limit'] + 3):
+            body.append(f'    println!("I\\t{{}}\\t{{}}", "[T; N]@{k}", inl::<[Probe; {k}]>());')
+        for self_ty, ty, typ in rows:
             body.append(f'    println!("{{}}\\t{{}}", {self_ty!r}.trim_matches(\'\\\'\'), <{ty} as TS>::name());'.replace("'", '"', 2) if False else
                         f'    println!("N\\t{{}}\\t{{}}", r#"{self_ty}"#, <{ty} as TS>::name());')
         for k in range(0, G['limit'] + 3):
@@ -463,12 +481,15 @@ def native_names(rep):
         if p.returncode != 0:
             rep.inconclusive.append('c12 native probe failed to build/run: ' + p.stderr[-1500:])
             return
-        names, jsons = {}, []
+        names, jsons, inlines = {}, [], {}
         G['native_names'] = names
+        G['native_inlines'] = inlines
         for ln in p.stdout.split('\n'):
             f = ln.split('\t')
             if f[0] == 'N':
                 names[f[1]] = f[2]
+            elif f[0] == 'I':
+                inlines[f[1]] = f[2]
             elif f[0] == 'J':
                 jsons.append((f[1], f[2]))
     finally:
@@ -589,7 +610,19 @@ def main():
     def native_disagrees(v):
         """the natively compiled name() of a concrete instantiation differs from the table instantiated the same way"""
         is_arr = v['impl'].replace(' ', '') == '[T;N]'
-        nat = G.get('native_names', {}).get(v['impl'] + (f'@{v["N"]}' if is_arr and v.get('N') is not None else ''))
+        key_ = v['impl'] + (f'@{v["N"]}' if is_arr and v.get('N') is not None else '')
+        if v['method'] == 'inline' and key_ in G.get('native_inlines', {}):
+            # inline(): instantiate at the derived struct Probe, whose inline form `{ q: number, }` differs from its name
+            nat = G['native_inlines'][key_]
+            gens_ = [t for t in impls if t[0] == v['impl']][0][1]
+            shape = SHAPES.get(v['impl']) or ('[' + ', '.join('{' + g + '}' for g in gens_) + ']')
+            if is_arr:
+                n_ = v.get('N') if v.get('N') is not None else 3
+                shape = 'Array<{T}>' if n_ > G['limit'] else '[' + ', '.join(['{T}'] * n_) + ']'
+            want = re.sub(r'\{([A-Z]\w*)\}', '{ q: number, }', shape)
+            v['native_inline_at_Probe'], v['table_instantiated'] = nat, want
+            return nat != want
+        nat = G.get('native_names', {}).get(key_)
         if nat is None or v['method'] not in ('name', 'inline'):
             return None
         gens_ = [t for t in impls if t[0] == v['impl']][0][1]
